@@ -231,7 +231,7 @@ def run_tlc(
     """Run TLC on spec_dir/module.tla with spec_dir/cfg. Returns a TLCResult; raises nothing for TLC-level errors."""
     _sweep_stale_metadirs()
     meta = tempfile.mkdtemp(prefix="verif-tlc-%d-" % os.getpid())
-    cmd = ["java", "-XX:+UseParallelGC", "-Xss" + xss]
+    cmd = ["java", "-XX:+UseParallelGC", "-Xss" + xss, "-Djava.io.tmpdir=" + meta]   # TLC's own tlc-<n> temp dirs go away with the metadir
     if heap:
         cmd.append("-Xmx" + heap)
     if dfs_queue:
